@@ -16,6 +16,24 @@ impl Drop for Z {
     }
 }
 
+/// plain data: no drop glue at all (`needs_drop::<Pod>()` is false); only the block that holds it has a life cycle
+#[derive(Clone, Copy)]
+pub struct Pod {
+    id: u64,
+    val: u64,
+}
+impl Pod {
+    fn new(id: usize) -> Self {
+        Pod { id: id as u64, val: !(id as u64) }
+    }
+}
+impl Tag for Pod {
+    fn tag(&self) -> u64 {
+        assert_eq!(self.val, !self.id);
+        self.id
+    }
+}
+
 #[cglue_trait]
 pub trait Tag {
     fn tag(&self) -> u64;
@@ -35,12 +53,15 @@ impl Tag for Z {
 enum B {
     BoxH(CBox<'static, Heavy>),
     BoxZ(CBox<'static, Z>),
+    BoxP(CBox<'static, Pod>),
     BoxO(CBox<'static, c_void>),
     SliceH(CSliceBox<'static, Heavy>),
     SliceZ(CSliceBox<'static, Z>),
+    SliceP(CSliceBox<'static, Pod>),
     SliceO(CSliceBox<'static, c_void>),
     ObjH(TagBaseBox<'static, Heavy>),
     ObjZ(TagBaseBox<'static, Z>),
+    ObjP(TagBaseBox<'static, Pod>),
     ObjO(TagBox<'static>),
 }
 
@@ -56,6 +77,7 @@ struct World {
     slots: Vec<Option<Slot>>,
     next: usize,
     zids: Vec<usize>,      // ids handed to zero-sized payloads, in creation order
+    pids: Vec<usize>,      // ids handed to plain-data payloads (no destructor to count)
     zdropped: Vec<usize>,  // ids the model says are dropped (zero-sized), to compare counts
     base: ledger::Snap,
 }
@@ -64,13 +86,16 @@ impl World {
     fn new(n: usize) -> Self {
         payload::reset_ids();
         Z_DROPS.store(0, SeqCst);
-        World { slots: (0..n).map(|_| None).collect(), next: 1, zids: vec![], zdropped: vec![], base: ledger::snap() }
+        World { slots: (0..n).map(|_| None).collect(), next: 1, zids: vec![], pids: vec![], zdropped: vec![], base: ledger::snap() }
     }
     fn fresh(&mut self, pk: &str) -> usize {
         let id = self.next;
         self.next += 1;
         if pk == "zst" {
             self.zids.push(id);
+        }
+        if pk == "pod" {
+            self.pids.push(id);
         }
         id
     }
@@ -85,13 +110,19 @@ impl World {
                         let h = Heavy::new(ids[0], ids[0] as i64);
                         B::BoxH(match via { "from_t" => CBox::from(h), "from_box" => CBox::from(Box::new(h)), _ => CBox::from((h, NoContext::default())) })
                     }
+                    ("cbox", "pod") => {
+                        let h = Pod::new(ids[0]);
+                        B::BoxP(match via { "from_t" => CBox::from(h), "from_box" => CBox::from(Box::new(h)), _ => CBox::from((h, NoContext::default())) })
+                    }
+                    ("sbox", "pod") => B::SliceP(CSliceBox::from(ids.iter().map(|&i| Pod::new(i)).collect::<Vec<_>>().into_boxed_slice())),
+                    ("obj", "pod") => B::ObjP(TagBaseBox::from(Pod::new(ids[0]))),
                     ("cbox", _) => B::BoxZ(match via { "from_t" => CBox::from(Z), "from_box" => CBox::from(Box::new(Z)), _ => CBox::from((Z, NoContext::default())) }),
                     ("sbox", "heavy") => B::SliceH(CSliceBox::from(ids.iter().map(|&i| Heavy::new(i, i as i64)).collect::<Vec<_>>().into_boxed_slice())),
                     ("sbox", _) => B::SliceZ(CSliceBox::from((0..n).map(|_| Z).collect::<Vec<_>>().into_boxed_slice())),
                     ("obj", "heavy") => B::ObjH(TagBaseBox::from(Heavy::new(ids[0], ids[0] as i64))),
                     _ => B::ObjZ(TagBaseBox::from(Z)),
                 });
-                let (k, p): (&'static str, &'static str) = (match kind { "cbox" => "cbox", "sbox" => "sbox", _ => "obj" }, if pk == "heavy" { "heavy" } else { "zst" });
+                let (k, p): (&'static str, &'static str) = (match kind { "cbox" => "cbox", "sbox" => "sbox", _ => "obj" }, match pk { "heavy" => "heavy", "pod" => "pod", _ => "zst" });
                 self.slots[s] = Some(Slot { b, kind: k, form: "typed", pk: p, ids });
             }
             "IntoOpaque" => {
@@ -99,6 +130,9 @@ impl World {
                 sl.b = match sl.b {
                     B::BoxH(b) => B::BoxO(b.into_opaque()),
                     B::BoxZ(b) => B::BoxO(b.into_opaque()),
+                    B::BoxP(b) => B::BoxO(b.into_opaque()),
+                    B::SliceP(b) => B::SliceO(b.into_opaque()),
+                    B::ObjP(o) => B::ObjO(o.into_opaque()),
                     B::SliceH(b) => B::SliceO(b.into_opaque()),
                     B::SliceZ(b) => B::SliceO(b.into_opaque()),
                     B::ObjH(o) => B::ObjO(o.into_opaque()),
@@ -116,6 +150,10 @@ impl World {
                 ledger::track(|| match sl.b {
                     B::BoxH(b) => drop(unsafe { b.into_inner() }),
                     B::BoxZ(b) => drop(unsafe { b.into_inner() }),
+                    B::BoxP(b) => {
+                        let v = unsafe { b.into_inner() };
+                        assert_eq!(v.tag() as usize, sl.ids[0]);
+                    }
                     _ => unreachable!(),
                 });
             }
@@ -130,6 +168,14 @@ impl World {
                     ledger::track(|| match &mut sl.b {
                         B::BoxH(b) => **b = Heavy::new(id, id as i64),
                         B::BoxZ(b) => **b = Z,
+                        B::BoxP(b) => {
+                            assert_eq!(b.tag() as usize, old);
+                            **b = Pod::new(id)
+                        }
+                        B::SliceP(b) => {
+                            assert_eq!(b[k].tag() as usize, old);
+                            b[k] = Pod::new(id)
+                        }
                         B::SliceH(b) => b[k] = Heavy::new(id, id as i64),
                         B::SliceZ(b) => b[k] = Z,
                         _ => unreachable!(),
@@ -144,6 +190,9 @@ impl World {
                 let sl = self.slots[s].take().unwrap();
                 if sl.pk == "zst" {
                     self.zdropped.extend(sl.ids.iter());
+                }
+                if let B::BoxP(b) = &sl.b {
+                    assert_eq!(b.tag() as usize, sl.ids[0]);
                 }
                 ledger::track(|| drop(sl.b));
             }
@@ -165,6 +214,8 @@ impl World {
             let id = i + 1;
             if self.zids.contains(&id) {
                 zexp += d.as_u64().unwrap() as usize;
+            } else if self.pids.contains(&id) {
+                // plain data: nothing to count; the block is accounted for by the allocator ledger
             } else if payload::drops(id) as u64 != d.as_u64().unwrap() {
                 return Some(format!("payload {} dropped {} times, expected {}", id, payload::drops(id), d));
             }
